@@ -196,8 +196,21 @@ fn case(rep: &mut Report, seed: u64, index: u64, table: &mut BTreeMap<String, St
         rep.nontrivial(crate::rng::fnv64(format!("{:?}", spec.nodes.iter().map(|n| (&n.class, &n.name, n.props.len())).collect::<Vec<_>>()).as_bytes()) ^ index);
     }
     rep.sample(json!({"index": index, "nodes": spec.nodes.len(), "props": nprops, "multi_spelling": multi}));
+    // if this build of rbx_xml does write object-valued Content (the pinned one panics: known finding of C02), its
+    // output is subject to the same determinism rules as everything else
+    static XML_WRITES_CONTENT_OBJECTS: std::sync::OnceLock<bool> = std::sync::OnceLock::new();
+    let xml_objs = *XML_WRITES_CONTENT_OBJECTS.get_or_init(|| {
+        let target = rbx_dom_weak::InstanceBuilder::new("Folder");
+        let dom = rbx_dom_weak::WeakDom::new(
+            rbx_dom_weak::InstanceBuilder::new("DataModel")
+                .with_child(rbx_dom_weak::InstanceBuilder::new("ImageLabel").with_property("ImageContent", Content::from_referent(target.referent())))
+                .with_child(target),
+        );
+        let roots = dom.root().children().to_vec();
+        matches!(catch(|| write("xml", &dom, &roots)), Ok(Ok(_)))
+    });
     for fmt in FORMATS {
-        let spec = if *fmt == "xml" { &spec_xml } else { &spec_bin };
+        let spec = if *fmt == "xml" && !xml_objs { &spec_xml } else { &spec_bin };
         if spec.nodes.iter().any(|n| n.props.iter().any(|(_, pv)| matches!(pv, PV::ContentObj(_)))) {
             rep.count("cases.with-content-object-refs");
         }
